@@ -12,11 +12,11 @@ import (
 	"fmt"
 	"math/rand/v2"
 	"os"
-	"time"
 	"runtime"
 	"runtime/pprof"
 	"sync"
 	"sync/atomic"
+	"time"
 
 	"github.com/codenotary/immudb/embedded/appendable"
 
@@ -201,7 +201,7 @@ func Run(c *fw.Ctx) {
 	h := hook.Install(&hook.Config{Seed: c.Seed, FaultFn: faultFn})
 	defer hook.Uninstall()
 
-	nseq := c.N(300, 9000)
+	nseq := c.N(300, 12000)
 	if raceBuild {
 		nseq = c.N(40, 600) // prefix of the same list
 		c.Note("race build: prefix of the sequence list only")
@@ -245,6 +245,13 @@ func Run(c *fw.Ctx) {
 				}
 				r := fw.NewRand(c.Seed, fmt.Sprintf("c17/seq/%d", i))
 				cf := drawConfig(r, i, c.Thorough())
+				if rm := fw.NewRand(c.Seed, fmt.Sprintf("c17/meta/%d", i)); rm.IntN(20) == 0 {
+					// metadata larger than one buffered read (own stream: the rest of the list does not shift)
+					cf.Meta = make([]byte, 3000+rm.IntN(6000))
+					for j := range cf.Meta {
+						cf.Meta[j] = byte(1 + rm.IntN(255))
+					}
+				}
 				s := newSeq(c, i, r, cf, fs)
 				t0 := time.Now()
 				s.run(nops)
